@@ -7,6 +7,7 @@ Three seams (all real code, no sockets):
 """
 import contextlib
 import itertools
+import logging
 import random as _random
 import sys
 import threading
@@ -403,3 +404,70 @@ class Session:
             guard += 1
         self.thread.join(10)
         return self.exc
+
+
+# --------------------------------------------------------------------------------------------------
+# datagram service: the real enip_srv_udp loop over a scripted recvfrom(), run synchronously
+
+class FakeUdpConn:
+    def __init__(self, script):
+        self.script = list(script)          # [(payload, from_addr)]
+        self.cursor = -1                    # index of the datagram delivered last
+        self.sent = []                      # (index of the datagram being served, reply bytes, to_addr)
+
+    def sendto(self, data, addr):
+        self.sent.append((self.cursor, bytes(data), addr))
+        return len(data)
+
+
+class _UdpScriptEnd(Exception):
+    pass
+
+
+def run_udp(sim, script, step_cap=None):
+    """Serve the datagrams of `script` = [(payload, from_addr)] with the real main.enip_srv_udp (one peerless socket, many peers).
+    -> {"sent": [(datagram index, reply, to_addr)], "steps": [python calls spent per datagram], "blown": step cap exceeded?,
+        "escaped": exception text if anything left enip_srv_udp}.  The loop is ended through its documented control.done flag."""
+    M = sim.M
+    conn = FakeUdpConn(script)
+    control = sim.kwds["server"]["control"]
+    steps = [0] * (len(script) + 1)
+    state = {"blown": False}
+
+    def recvfrom(c, maxlen=4 * 1024, timeout=0):
+        if c is not conn:
+            raise AssertionError("harness: unexpected socket in recvfrom")
+        conn.cursor += 1
+        if state["blown"] or conn.cursor >= len(conn.script):
+            control["done"] = True
+            raise _UdpScriptEnd()                 # ends the wait-for-a-datagram loop; the server loop then sees control.done
+        return conn.script[conn.cursor]
+
+    def hook(frame, event, arg):
+        if event == "call":
+            i = min(max(conn.cursor, 0), len(steps) - 1)
+            steps[i] += 1
+            if step_cap is not None and steps[i] > step_cap and not state["blown"]:
+                state["blown"] = True
+                sys.setprofile(None)
+                raise StepBudgetExceeded("datagram %d: more than %d steps" % (i, step_cap))
+
+    real = M.main.network.recvfrom
+    M.main.network.recvfrom = recvfrom
+    escaped = None
+    lvl = logging.getLogger().level
+    logging.getLogger().setLevel(logging.CRITICAL + 1)       # the loop logs every refused datagram with a traceback
+    hook_unraisable = sys.unraisablehook
+    sys.unraisablehook = lambda u: None      # a sub-machine generator closed in mid-parse may fail in its terminate(): "ignored" by Python
+    try:
+        sys.setprofile(hook)
+        M.main.enip_srv_udp(conn, name="udp", enip_process=M.logix.process, **sim.kwds)
+    except BaseException as exc:
+        escaped = "%s: %s" % (type(exc).__name__, exc)
+    finally:
+        sys.setprofile(None)
+        sys.unraisablehook = hook_unraisable
+        M.main.network.recvfrom = real
+        control["done"] = False
+        logging.getLogger().setLevel(lvl)
+    return {"sent": conn.sent, "steps": steps[:len(script)], "blown": state["blown"], "escaped": escaped}
